@@ -207,7 +207,7 @@ ROUND2 = {
     'C11': 'outside dawgie.context the live revision is assigned only by code of the reload step (reached from FSM.reload, not from FSM.load); nothing notify_all calls per hand changes the idle list it walks',
     'C14': 'no receive loop consumes a local copy of a buffer that a phase reached from the loop also writes',
     'C15': 'every work-set assignment stores a container constructed for that node; db.targets() drops exactly the reserved names (truth table); Version defines all six comparisons and comes first in the MRO',
-    'C16': 'each rule_NN makes the observations recorded for it (table); main puts the root of --ae-dir at the front of sys.path before scanning; no handler in dawgie.pl.scan swallows a failing import of a task module; automatic compares the changeset with the checked-out HEAD; rule_06 accepts the task package itself and its sub-modules',
+    'C16': 'each rule_NN makes the observations recorded for it (table); main puts the root of --ae-dir at the front of sys.path before scanning; no handler in dawgie.pl.scan swallows a failing import of a task module; automatic compares the changeset with the checked-out HEAD; rule_06 accepts the task package itself and its sub-modules; the resolver of rule_11, evaluated on seven no-match scenarios, never reports a reference resolved when nothing matches',
     'C17': 'the SQL range terms are half open with one placeholder per pushed bound; front-end callers of find hand the page on unreordered; the search path keeps no state between calls (no memoisation); shelve search resolves names by equality of the dissected field',
     'C18': 'the history read path keeps no state between calls; complete reads no reply-dependent timing key before the journal entry is written; the history end points relabel the zone of a bound only where it is known to be naive; chronicle.append refuses a message only for missing keys',
     'C19': 'the certificate handed to sanctioned keeps the None marker of an anonymous caller; security.clients() returns the configured certificates unfiltered',
